@@ -224,23 +224,42 @@ def run(ctx):
                        'the counters map of a new system is %s' % ('the result of load_counters' if okl else 'NOT taken from load_counters: ' + (e.show() if e else '?')))
     ctx.floor('RELOAD', 1)
     # sync writes a serialisation of the counters map
-    sync = [prog.bodies[i] for i in prog.family(SYS + '::sync_counters') if i in prog.bodies]
-    load = [prog.bodies[i] for i in prog.family(SYS + '::load_counters') if i in prog.bodies]
-    if not sync or not load:
-        ctx.anchor_fail('RELOAD', 'sync_counters / load_counters')
-    else:
-        ser = [cs for b in sync for cs in b.calls(r'postcard::(to_stdvec|to_allocvec|to_vec)')]
-        de = [cs for b in load for cs in b.calls(r'postcard::from_bytes')]
-        ok = False
-        detail = 'no postcard serialisation call in sync_counters'
-        for cs in ser:
-            e = cs.body.expr(cs.args[0])
-            rw = e.mentions_call(L.LOCK_ACQ)
-            ok = rw is not None and 'counters' in rw.b[0].show()
-            detail = 'sync serialises %s' % e.brief()
-        ctx.ob('RELOAD', 'sync-serialises-map', ok, sync[0].where(), detail)
-        ctx.ob('RELOAD', 'load-deserialises-map', bool(de), load[0].where(),
-               'load_counters decodes the file with postcard::from_bytes (%d site)' % len(de))
+    # name-free: wherever the module serialises a map of PeerCounters (what ends up in the counters file), the value
+    # serialised is the live map read under the `counters` lock in that same body — not a copy kept from an earlier tick
+    # (a cached copy can miss an accepted number, which a reloaded store then accepts again)
+    mbodies = list(prog.bodies.in_files(['src/monotonic_counter.rs']))
+    ser = []
+    de = []
+    for b in mbodies:
+        if b.derived:
+            continue
+        for cs in b.calls(r'postcard::(to_stdvec|to_allocvec|to_vec)$|serde_json::to_(vec|string|writer)$|bincode::serialize$'):
+            aty = L.operand_ty(b, cs.args[0]) or ''
+            e = b.expr(cs.args[0])
+            if 'PeerCounter' in aty or 'PeerCounter' in (cs.fa or '') or 'counters' in e.show():
+                ser.append((b, cs, e))
+        for cs in b.calls(r'postcard::from_bytes$|serde_json::from_(slice|str|reader)$|bincode::deserialize$'):
+            if cs.dest and 'PeerCounter' in b.local_ty(cs.dest[0]):
+                de.append((b, cs))
+    if not ser:
+        ctx.ob('RELOAD', 'sync-serialises-map', False, 'src/monotonic_counter.rs', 'no serialisation of the counters map found in the module (anchor)')
+    for i, (b, cs, e) in enumerate(ser):
+        rw = e.mentions_call(L.LOCK_ACQ)
+        live = False
+        if rw is not None and rw.b:
+            lo = rw.b[0].strip()
+            live = lo.show().endswith('.counters') or (lo.k == 'param' and isinstance(lo.a, int) and lo.a < len(b.locals) and 'PeerCounter' in b.local_ty(lo.a))
+        if not live:
+            # the lock may be taken in a named guard local of the same body
+            for g in L.guards(b):
+                if g.lock_field() == 'counters' and L.touches(b, e, L.alias_of(b, [g.local])):
+                    live = True
+        ctx.ob('RELOAD', 'sync-serialises-map' if i == 0 else 'sync-serialises-map#%d' % i, live, cs.where(),
+               ('what is written to the counters file is the live map read under the counters lock: %s' % e.brief(100)) if live else
+               ('the counters file is written from %s, not from the live map under the counters lock: a copy kept from an earlier sync can miss an accepted '
+                'number, and a store reloaded from the file accepts it again' % e.brief(100)), entry=b.root)
+    ctx.ob('RELOAD', 'load-deserialises-map', bool(de), (de[0][1].where() if de else 'src/monotonic_counter.rs'),
+           'the counters file is decoded into a map of PeerCounters (%d site)' % len(de))
 
     # ---- the store never forgets a peer: no entry of the counters map is removed (its high-water mark would be
     #      lost and 1,2,3,... accepted again), except by the explicit reset operation
